@@ -62,11 +62,15 @@ pub fn c13(out: &mut Out, ex: &mut Exec, seed: u64, thorough: bool) {
         let ra = run_lines(out, ex, &la);
         // B: chopped into random run-style calls
         let mut lb = base_setup(&format!("{id}b"), real, dbg, &prog, &kb);
+        // the instruction counter is a wrapping u64: start some cases close to the wrap-around
+        let near_wrap = rng.chance(1, 5);
+        if near_wrap { lb.push(format!("sim setrun {}", u64::MAX - rng.below(40))); out.hist.hit("counter_near_wrap"); }
         let mut only_limits = true;
         let limits_only_case = rng.chance(2, 5);
         for _ in 0..(3 + rng.below(12)) {
             let l = match if limits_only_case { rng.below(7) } else { rng.below(14) } {
-                0..=5 => format!("sim run {}", 1 + rng.below(25)),
+                0..=4 => format!("sim run {}", 1 + rng.below(25)),
+                5 => if rng.chance(1, 3) { out.hist.hit("huge_limit"); format!("sim run {}", u64::MAX - rng.below(3)) } else { format!("sim run {}", 1 + rng.below(25)) },
                 6 => "sim step".to_string(),
                 7 => { only_limits = false; "sim stepover".to_string() }
                 8 => { only_limits = false; "sim stepout".to_string() }
@@ -82,7 +86,7 @@ pub fn c13(out: &mut Out, ex: &mut Exec, seed: u64, thorough: bool) {
         let rb0 = run_lines(out, ex, &lb);
         out.evaluations += lb.len() as i64;
         for r in &rb0 { out.hist.hit(&format!("res_{}", r.split(' ').next().unwrap_or(""))); if r.contains("hb=1") { out.hist.hit("stopped_at_breakpoint"); } if r.contains("TIMEOUT") { out.hist.hit("timeout"); } }
-        if only_limits && !real {
+        if only_limits && !real && !near_wrap {
             let fin = ["sim run 20000".to_string(), "sim memhash".to_string()];
             let rb = run_lines(out, ex, &fin);
             // oracle: split execution ends in the same state and instruction count as the unbroken run
